@@ -61,7 +61,7 @@ template <typename T> struct BoundedMon {
     const Lim& L = lim<N>();
     std::string key = std::string("C11.ovf.") + op + "." + tname<N>() + ":" + cls;
     std::string head = std::string(op) + "<" + kname<N>() + ">(" + d() + ")";
-    bool exact_fits = ex.u == U_NONE && representable<N>(ex.v);
+    bool exact_fits = ex.u == U_NONE && kinfo<N>().representable(ex.v);
     bool prod_ovf = ex.has_prod && (xcmp(ex.prod, L.lo) < 0 || xcmp(ex.prod, L.hi) > 0);
     if (threw_other) { hx::violation(std::string("C11.rel.") + op + "." + tname<N>() + ":" + cls, head + " threw " + what + ", exact=" + show(ex.v)); return; }
     if (threw_overflow) { if (exact_fits && !prod_ovf) hx::violation(key, head + " threw std::overflow_error(" + what + ") although the exact result " + show(ex.v) + " is representable"); return; }
@@ -69,7 +69,7 @@ template <typename T> struct BoundedMon {
     if (!exact_fits || xcmp(ex.v, st) != 0) hx::violation(std::string("C11.rel.") + op + "." + tname<N>() + ":" + cls, head + " returned " + show(st) + " without an exception, exact=" + show(ex.v));
   }
   template <typename F> static void one(const char* op, const Ex& ex, const Desc& d, F f) {
-    const char* cls = intern(res_class<N>(ex, false));
+    const char* cls = intern(res_class(kinfo<N>(), ex, false));
     if (g_verbose()) fprintf(stderr, "op: %s<%s>(%s)\n", op, kname<N>().c_str(), d().c_str());
     N got; bool to = false, other = false; std::string what;
     try { got = f(); }
